@@ -367,7 +367,7 @@ def _queries(tree, root, snap, qspecs):
 # ---------------------------------------------------------------------------------------------------------------
 # composition-edit programs
 
-MASS_OPS = ("addMass", "removeMass", "setMass", "setMasses")
+MASS_OPS = ("addMass", "removeMass", "setMass", "setMasses", "addMasses")
 EXTRA_NUCS = ["PU239", "XE135", "H1", "B10", "U234", "AM241", "CS137", "O16", "SM149"]
 
 
@@ -472,7 +472,10 @@ def run_program(out, tree, ops, queries=(), top=None, stats=None, handlers=None)
             continue
         level = levels[op["level"] % len(levels)]
         cands = tree.by_level[level]
-        if "leaf" in op:
+        if "_node" in op:  # (internal follow-up step on the object of the previous step)
+            cands = [tree.nodes[op["_node"]]]
+            op = dict(op, t=0)
+        elif "leaf" in op:
             cands = [tree.leaf_nodes[op["leaf"]]]
             op = dict(op, t=0)
         elif kind in MASS_OPS and level == "component":
@@ -574,6 +577,31 @@ def run_program(out, tree, ops, queries=(), top=None, stats=None, handlers=None)
                     expect.clear()
                 if reject:
                     out.fail("edit/%s-absent-nuclide-accepted" % kind, "%s: %s held by no child, mass %r accepted" % (where, nuc, m))
+            elif kind == "addMasses":
+                # a vector of signed masses: additions and removals in one call (never more removed than is present)
+                if "_vector" in op:
+                    req = dict(op["_vector"])
+                else:
+                    req = {}
+                    for rec in op["items"]:
+                        nuc, here = _pick_nuc(present, absent if comp else [], rec[:2])
+                        cur = pre.mass(nuc)
+                        if rec[3] and cur > 0:
+                            req[nuc] = -min(rec[2], 0.9) * cur
+                        else:
+                            req[nuc] = rec[2] * (cur if cur > 0 else max(pre.total_mass(), 1.0) * 1e-3)
+                    if op["mix"] and len(req) >= 2 and all(m > 0 for m in req.values()):
+                        for nuc in sorted(req):
+                            if pre.mass(nuc) > 0:
+                                req[nuc] = -min(abs(req[nuc]) / pre.mass(nuc), 0.9) * pre.mass(nuc)
+                                break
+                signs = {m > 0 for m in req.values() if m}
+                out.label("addMasses:mixed-sign" if len(signs) == 2 else "addMasses:one-sign")
+                for nuc, m in req.items():
+                    touched.add(nuc)
+                    expect[nuc] = (pre.mass(nuc) + m) * C / _weight(nuc)
+                    out.nontrivial = out.nontrivial or (not comp and holders(nuc) >= 2) or len(signs) == 2
+                obj.addMasses(dict(req))
             elif kind == "setMasses":
                 req = {}
                 for rec in op["items"]:
@@ -709,6 +737,20 @@ def run_program(out, tree, ops, queries=(), top=None, stats=None, handlers=None)
                 out.check(not bad, "edit/setNumberDensity-not-even-over-holders",
                           lambda: "%s: %s=%r over active volume fraction %r should give every holder %r; %r has %r" % (
                               where, nuc, val, avf, want, bad[0][0].obj, bad[0][1]))
+        # -- addMasses(v) followed by addMasses(-v) restores every density of the object
+        if kind == "addMasses":
+            if "_restore" in op:
+                for nuc in sorted(pre.names | post.names | set(op["_restore"])):
+                    a0 = op["_restore"].get(nuc, 0.0)
+                    a1 = post.atoms.get(nuc, 0.0)
+                    sc = max(pre.aabs.get(nuc, 0.0), post.aabs.get(nuc, 0.0), abs(req.get(nuc, 0.0)) * C / _weight(nuc))
+                    out.check(_close(a1, a0, sc), "edit/addMasses-inverse-does-not-restore",
+                              lambda: "%s: %s was N=%r before the vector and its opposite were added, now N=%r" % (
+                                  where, nuc, a0 / pre.vol, a1 / post.vol))
+            elif op.get("inverse") and not out.violations:
+                work.insert(0, {"op": "addMasses", "level": 0, "t": 0, "_node": tree.nodes.index(node),
+                                "_vector": {n: -m for n, m in req.items()},
+                                "_restore": {n: pre.atoms.get(n, 0.0) for n in pre.names}})
         _held_check(out, held, where)
         # -- additivity again, at the target and every ancestor
         snap = post_snap
@@ -760,6 +802,11 @@ def _op_strategy(nlevels):
                                "known": st.just(False) if EXCLUDE_KNOWN.get(SIG_SCALE_RAISES) else st.booleans()}),
         st.fixed_dictionaries({"op": st.sampled_from(["addMass", "removeMass", "setMass"]), "level": lvl, "t": tgt,
                                "nuc": _nucrec(), "frac": st.floats(0.0, 2.5).map(lambda x: round(x, 6)), "known": known}),
+        st.fixed_dictionaries({"op": st.just("addMasses"), "level": lvl, "t": tgt, "known": known, "mix": st.integers(0, 3).map(lambda x: x != 0),
+                               "inverse": st.booleans(),
+                               "items": st.lists(st.tuples(st.integers(0, 200), st.integers(0, 8).map(lambda x: x == 0),
+                                                           st.floats(0.01, 2.0).map(lambda x: round(x, 6)), st.booleans()).map(list),
+                                                 min_size=2, max_size=4)}),
         st.fixed_dictionaries({"op": st.just("setMasses"), "level": lvl, "t": tgt, "items": st.lists(mitem, min_size=1, max_size=3),
                                "known": known}),
         st.fixed_dictionaries({"op": st.sampled_from(["setMassFracs", "setMassFrac"]), "level": lvl, "t": tgt,
